@@ -5,6 +5,7 @@ import (
 	"go/constant"
 	"go/token"
 	"go/types"
+	"sort"
 	"strings"
 
 	"dblint/internal/core"
@@ -689,4 +690,518 @@ func c16NoHiddenState(r *core.Run) {
 	if n == 0 {
 		r.Unknown("R16.6", "reading methods of *Decimal", token.NoPos, "none found")
 	}
+}
+
+// c06StatusSiblings: R06.16. Whether a per-value status byte is on the wire is decided by the field format's status,
+// once in readFromStatus and once in writeToStatus. The two tests are the same expression with the same polarity
+// (sibling agreement): with different tests there are format statuses for which the writer leaves the byte out and
+// the reader expects it.
+func c06StatusSiblings(r *core.Run) {
+	p := r.Prog
+	rd := p.Func("tds", "fieldDataBase", "readFromStatus")
+	wr := p.Func("tds", "fieldDataBase", "writeToStatus")
+	// the condition under which the function returns without touching the channel
+	skipCond := func(fn *ssa.Function) (string, bool) {
+		for _, ret := range core.Returns(fn) {
+			rv := core.RetVals(ret)
+			if z, isC := core.ConstInt64(rv[0]); !isC || z != 0 || !core.IsNil(rv[len(rv)-1]) {
+				continue
+			}
+			var parts []string
+			for _, g := range core.GuardsAt(ret) {
+				parts = append(parts, fmt.Sprintf("%s=%v", core.KExpr(g.Cond), g.Pol))
+			}
+			sort.Strings(parts)
+			// a value receiver is spilled to a local, a pointer receiver is parameter 0: the same object here
+			return strings.ReplaceAll(strings.Join(parts, " && "), "local.", "$0."), true
+		}
+		return "", false
+	}
+	cr, okr := skipCond(rd)
+	cw, okw := skipCond(wr)
+	why := ""
+	switch {
+	case !okr || !okw:
+		why = "no `return 0, nil` (no status byte) found in one of the two functions"
+	case cr != cw:
+		why = "the reader skips the status byte under  " + cr + "  and the writer under  " + cw + ": for a format status on which the two tests differ the writer leaves out a byte the reader consumes (or the other way round) and every following byte of the row is shifted"
+	}
+	r.Check(why == "", "R06.16", "readFromStatus / writeToStatus decide alike whether a status byte is present", wr.Pos(), cr, why)
+}
+
+// c07DiscardOwner: R07.12. DiscardUntilCurrentPosition frees queue packets and thereby shifts every position saved
+// earlier. It is called only where no saved position is alive: by WritePacket after a package was parsed completely
+// (rx) and by sendPackets when it is done (tx). A parser that discards in the middle of an attempt invalidates the
+// position WritePacket rolls back to when the attempt turns out to be truncated; the resumed parse starts in the
+// wrong packet.
+func c07DiscardOwner(r *core.Run, rule string) {
+	p := r.Prog
+	allowed := map[*ssa.Function]bool{
+		p.Func("tds", "Channel", "WritePacket"): true,
+		p.Func("tds", "Channel", "sendPackets"): true,
+	}
+	pq := p.Named("tds", "PacketQueue")
+	n := 0
+	for _, fn := range p.ModuleFuncs() {
+		if fn.Blocks == nil || p.FuncInOverlay(fn) {
+			continue
+		}
+		outer := fn
+		for outer.Parent() != nil {
+			outer = outer.Parent()
+		}
+		for _, c := range core.Calls(fn) {
+			name := ""
+			if c.Common().IsInvoke() {
+				name = c.Common().Method.Name()
+			} else if f := core.StaticCallee(c); f != nil {
+				name = f.Name()
+			}
+			if name != "DiscardUntilCurrentPosition" {
+				continue
+			}
+			n++
+			if allowed[outer] || (core.RecvNamed(outer) != nil && core.RecvNamed(outer).Obj() == pq.Obj()) {
+				r.OK(rule, core.FuncName(outer)+": discards the consumed packets", c.Pos(), "no saved position is alive here")
+				continue
+			}
+			r.Bad(rule, core.FuncName(outer)+": DiscardUntilCurrentPosition outside WritePacket/sendPackets", c.Pos(), core.FuncName(outer)+" frees queue packets in the middle of a parse attempt: the position WritePacket saved before the attempt now names another packet, and when the attempt ends with not-enough-bytes the rollback resumes the parse at the wrong place — a fragmented response loses packages")
+		}
+	}
+	r.Check(n >= 2, rule, "DiscardUntilCurrentPosition is called by WritePacket and sendPackets only", token.NoPos, fmt.Sprintf("%d call sites", n), "the discard calls of WritePacket/sendPackets were not found")
+}
+
+// parseErrorStops: a parse error ends the dissection of the response. On every path of tryParsePackage that sends on
+// the channel's error queue the function answers false (WritePacket then stops and rolls back or resets). Answering
+// true makes the loop go on behind the broken package: the packages after it are delivered and, because NextPackage
+// hands out queued packages before queued errors, Login succeeds on a reply that was not a valid acceptance.
+func parseErrorStops(r *core.Run, rule string) {
+	p := r.Prog
+	fn := p.Func("tds", "Channel", "tryParsePackage")
+	fErrCh := p.Field("tds", "Channel", "errCh")
+	n := 0
+	why := ""
+	for _, b := range fn.Blocks {
+		for _, in := range b.Instrs {
+			s, ok := in.(*ssa.Send)
+			if !ok {
+				continue
+			}
+			if f, _ := core.FieldLoad(s.Chan); f != fErrCh {
+				continue
+			}
+			// errors of parsing (pkg.ReadFrom, LastPkg), not of handling a package that was parsed
+			parse := false
+			if call, isCall := s.X.(*ssa.Call); isCall {
+				ws, _ := errorfWraps(call)
+				for _, w := range ws {
+					if ex, isEx := core.Strip(w).(*ssa.Extract); isEx {
+						w = ex.Tuple
+					}
+					if c, isC := core.Strip(w).(*ssa.Call); isC && c.Call.IsInvoke() && (c.Call.Method.Name() == "ReadFrom" || c.Call.Method.Name() == "LastPkg") {
+						parse = true
+					}
+				}
+			}
+			if !parse {
+				continue
+			}
+			n++
+			for _, ret := range core.Returns(fn) {
+				if !reachesBlock(s.Block(), ret.Block()) {
+					continue
+				}
+				c, isC := core.RetVals(ret)[0].(*ssa.Const)
+				if !isC || c.Value == nil || c.Value.ExactString() != "false" {
+					why = "after reporting a parse error (" + p.Pos(s.Pos()) + ") tryParsePackage can answer " + core.Expr(core.RetVals(ret)[0]) + " (" + p.Pos(ret.Pos()) + "): the read loop continues behind the broken package and delivers what follows it"
+				}
+			}
+		}
+	}
+	if n == 0 {
+		why = "tryParsePackage no longer reports parse errors on the channel's error queue"
+	}
+	r.Check(why == "", rule, "tryParsePackage: answers false after reporting a parse error", fn.Pos(), fmt.Sprintf("%d error reports, every return they reach is false", n), why)
+}
+
+func reachesBlock(a, b *ssa.BasicBlock) bool {
+	seen := map[*ssa.BasicBlock]bool{}
+	st := []*ssa.BasicBlock{a}
+	for len(st) > 0 {
+		x := st[len(st)-1]
+		st = st[:len(st)-1]
+		if x == b {
+			return true
+		}
+		if seen[x] {
+			continue
+		}
+		seen[x] = true
+		st = append(st, x.Succs...)
+	}
+	return false
+}
+
+// c09EncryptDefault: R09.9. A configuration made by NewLoginConfig asks for the password encryption
+// (TDS_MSG_SEC_ENCRYPT4) whatever the DSN says: the store Encrypt := TDS_MSG_SEC_ENCRYPT4 dominates every success
+// return. With Encrypt left at zero pack() writes the account password in clear into the login record.
+func c09EncryptDefault(r *core.Run) {
+	p := r.Prog
+	fn := p.Func("tds", "", "NewLoginConfig")
+	fEnc := p.Field("tds", "LoginConfig", "Encrypt")
+	want := constOf(p, "tds", "TDS_MSG_SEC_ENCRYPT4")
+	var sets []ssa.Instruction
+	for _, b := range fn.Blocks {
+		for _, in := range b.Instrs {
+			st, ok := in.(*ssa.Store)
+			if !ok {
+				continue
+			}
+			fa, ok := st.Addr.(*ssa.FieldAddr)
+			if !ok || core.FieldOfAddr(fa) != fEnc {
+				continue
+			}
+			if c, isC := st.Val.(*ssa.Const); isC && c.Value != nil && constEq(c.Value, want) {
+				sets = append(sets, st)
+			}
+		}
+	}
+	why := ""
+	if len(sets) == 0 {
+		why = "NewLoginConfig does not set Encrypt to TDS_MSG_SEC_ENCRYPT4"
+	}
+	for _, ret := range core.Returns(fn) {
+		rv := core.RetVals(ret)
+		if !core.IsNil(rv[len(rv)-1]) {
+			continue
+		}
+		dom := false
+		for _, s := range sets {
+			if core.Dominates(s, ret) {
+				dom = true
+			}
+		}
+		if !dom && why == "" {
+			why = "a configuration can be returned (" + p.Pos(ret.Pos()) + ") with Encrypt not set to TDS_MSG_SEC_ENCRYPT4 (the assignment is conditional): pack() then writes the account password in clear into the login record"
+		}
+	}
+	r.Check(why == "", "R09.9", "NewLoginConfig: password encryption is requested unconditionally", fn.Pos(), "Encrypt := TDS_MSG_SEC_ENCRYPT4 dominates every success return", why)
+}
+
+// c13WriteLockers: R13.14. A receiver parked in NextPackage(wait) holds the channel's read lock for as long as it
+// waits. Whoever asks for the write lock queues behind it — and every later RLock (a call with an already cancelled
+// context, the reader's WritePacket) queues behind the writer. The write lock of a Channel is therefore taken only by
+// Close and by the two one-assignment setters; Reset, the send path and the receive path use the read lock.
+func c13WriteLockers(r *core.Run) {
+	p := r.Prog
+	ch := p.Named("tds", "Channel")
+	allowed := map[*ssa.Function]bool{
+		p.Func("tds", "Channel", "Close"):        true,
+		p.Func("tds", "Channel", "SetLastPkgRx"): true,
+		p.Func("tds", "Channel", "SetLastPkgTx"): true,
+	}
+	n := 0
+	for _, fn := range p.ModuleFuncs() {
+		if fn.Blocks == nil || p.FuncInOverlay(fn) {
+			continue
+		}
+		for _, c := range core.Calls(fn) {
+			f := core.StaticCallee(c)
+			if f == nil || f.Name() != "Lock" || f.Signature.Recv() == nil || !strings.HasSuffix(f.Signature.Recv().Type().String(), "sync.RWMutex") {
+				continue
+			}
+			fa, ok := c.Common().Args[0].(*ssa.FieldAddr)
+			if !ok {
+				continue
+			}
+			pt, isP := fa.X.Type().Underlying().(*types.Pointer)
+			if !isP {
+				continue
+			}
+			nt, isN := pt.Elem().(*types.Named)
+			if !isN || nt.Obj() != ch.Obj() || !core.FieldOfAddr(fa).Embedded() {
+				continue
+			}
+			n++
+			outer := fn
+			for outer.Parent() != nil {
+				outer = outer.Parent()
+			}
+			if allowed[outer] {
+				r.OK("R13.14", core.FuncName(outer)+": takes the channel's write lock", c.Pos(), "Close / one-assignment setter")
+				continue
+			}
+			r.Bad("R13.14", core.FuncName(outer)+": takes the channel's write lock", c.Pos(), core.FuncName(outer)+" takes the write lock of the channel: it waits behind every receiver parked in NextPackage, and while it waits every new RLock — a receive or send whose context is already cancelled, the reader's WritePacket — queues behind it instead of returning promptly")
+		}
+	}
+	r.Check(n >= 3, "R13.14", "the channel's write lock is taken by Close and the setters only", token.NoPos, fmt.Sprintf("%d acquisitions", n), "the write-lock acquisitions of Close/SetLastPkgRx/SetLastPkgTx were not found")
+}
+
+// sentinelsArePlain: the distinguished conditions (ErrEOFAfterZeroRead, ErrNotEnoughBytes, ErrChannelClosed,
+// ErrNoPackageReady) are told apart with errors.Is. Each is created with errors.New: a sentinel that wraps another
+// error also answers errors.Is for that one — ErrEOFAfterZeroRead wrapping io.EOF is taken by Conn.ReadFrom for an
+// orderly end with a complete packet, and the incomplete packet is parsed.
+func sentinelsArePlain(r *core.Run, rule string, names ...string) {
+	p := r.Prog
+	initFn := p.SSAPkg("tds").Func("init")
+	for _, name := range names {
+		g := p.Global("tds", name)
+		why := "no initialisation found"
+		var pos = g.Pos()
+		for _, b := range initFn.Blocks {
+			for _, in := range b.Instrs {
+				st, ok := in.(*ssa.Store)
+				if !ok || st.Addr != ssa.Value(g) {
+					continue
+				}
+				pos = st.Pos()
+				if c, isC := core.Strip(st.Val).(*ssa.Call); isC && core.IsPkgFunc(c, "errors", "New") {
+					why = ""
+				} else {
+					why = "tds." + name + " is initialised with " + core.Expr(st.Val) + ", not errors.New: if it wraps another error it also matches errors.Is for that error, and the code that tells the two conditions apart takes one for the other"
+				}
+			}
+		}
+		r.Check(why == "", rule, "tds."+name+" is a plain sentinel", pos, "errors.New(...)", why)
+	}
+}
+
+// c15StringIsBytes: R15.2 (String). String(n) is exactly the n bytes Bytes(n) returned, converted.
+func c15StringIsBytes(r *core.Run) {
+	p := r.Prog
+	fn := p.Func("tds", "PacketQueue", "String")
+	bytesFn := p.Func("tds", "PacketQueue", "Bytes")
+	why := ""
+	n := 0
+	for _, ret := range core.Returns(fn) {
+		n++
+		v := core.RetVals(ret)[0]
+		cv, ok := v.(*ssa.Convert)
+		if !ok {
+			why = "String returns " + core.Expr(v) + ", not the converted result of Bytes: the text handed out is not the bytes that were consumed (trimmed, padded or re-encoded) while the position advanced by the full count"
+			continue
+		}
+		ex, ok := cv.X.(*ssa.Extract)
+		if !ok || ex.Index != 0 {
+			why = "String converts " + core.Expr(cv.X) + ", not the result of Bytes"
+			continue
+		}
+		if c, isC := ex.Tuple.(*ssa.Call); !isC || c.Call.StaticCallee() != bytesFn || len(c.Call.Args) != 2 || c.Call.Args[1] != ssa.Value(fn.Params[1]) {
+			why = "String does not read exactly the requested number of bytes through Bytes"
+		}
+	}
+	if n == 0 {
+		why = "no return"
+	}
+	r.Check(why == "", "R15.2", "String = string(Bytes(n))", fn.Pos(), "the bytes read, converted", why)
+}
+
+// c16SetBytesWhole: R16.10. Decimal.SetBytes hands the bytes it is given to big.Int.SetBytes as they are: any
+// re-slicing drops magnitude bytes of large values (a 38-digit magnitude needs 16 bytes).
+func c16SetBytesWhole(r *core.Run) {
+	p := r.Prog
+	fn := p.Func("asetypes", "Decimal", "SetBytes")
+	why := "Decimal.SetBytes does not call big.Int.SetBytes"
+	for _, c := range core.Calls(fn) {
+		f := core.StaticCallee(c)
+		if f == nil || f.Name() != "SetBytes" || f.Pkg == nil || f.Pkg.Pkg.Path() != "math/big" {
+			continue
+		}
+		if c.Common().Args[1] == ssa.Value(fn.Params[1]) {
+			why = ""
+		} else {
+			why = "Decimal.SetBytes passes " + core.Expr(c.Common().Args[1]) + " to big.Int.SetBytes, not the bytes it was given: high-order bytes of a large magnitude are dropped and the decimal decodes to a different number"
+		}
+	}
+	r.Check(why == "", "R16.10", "Decimal.SetBytes: the magnitude is taken from all the bytes given", fn.Pos(), "dec.i.SetBytes(b)", why)
+}
+
+// c17Dispatch: R17.13. Parse tells the URI form from the simple form by the scheme separator "://". Values of the
+// simple form may contain "//" or ":" (paths, passwords), so a shorter marker sends a simple DSN to ParseURI, where
+// url.Parse accepts it as a bare path and every field but the database stays empty.
+func c17Dispatch(r *core.Run) {
+	p := r.Prog
+	fn := p.Func("dsn", "", "Parse")
+	uri := p.Func("dsn", "", "ParseURI")
+	why := ""
+	calls := callsTo(fn, uri)
+	if len(calls) == 0 {
+		why = "Parse does not call ParseURI"
+	}
+	for _, c := range calls {
+		marker := ""
+		for _, g := range core.GuardsAt(c.(ssa.Instruction)) {
+			var call *ssa.Call
+			switch x := g.Cond.(type) {
+			case *ssa.Call:
+				call = x
+			case *ssa.BinOp:
+				if cx, ok := x.X.(*ssa.Call); ok {
+					call = cx
+				}
+			}
+			if call == nil || call.Call.StaticCallee() == nil || call.Call.StaticCallee().Pkg == nil || call.Call.StaticCallee().Pkg.Pkg.Path() != "strings" {
+				continue
+			}
+			for _, a := range call.Call.Args {
+				if cst, ok := a.(*ssa.Const); ok && cst.Value != nil && cst.Value.Kind() == constant.String {
+					marker = constant.StringVal(cst.Value)
+				}
+			}
+		}
+		if marker != "://" {
+			why = fmt.Sprintf("Parse hands the string to ParseURI on the marker %q, not on the scheme separator \"://\": a simple DSN whose values contain the marker (a path with //, a password) is parsed as a URI — url.Parse accepts it as a bare path, no error, and every field except the database is lost", marker)
+		}
+	}
+	r.Check(why == "", "R17.13", "Parse: the URI form is recognised by \"://\"", fn.Pos(), "strings.Contains(dsn, \"://\") guards ParseURI", why)
+}
+
+// c19SpecUnchanged: R19.8. The version string handed to the comparer is the specification the version was created
+// with: VersionString returns the field itself. A normalised copy (trimmed, lower-cased) is a different string — a
+// specification the comparer would have refused is answered silently.
+func c19SpecUnchanged(r *core.Run) {
+	p := r.Prog
+	fn := p.Func("capability", "DefaultVersion", "VersionString")
+	fSpec := p.Field("capability", "DefaultVersion", "spec")
+	why := ""
+	for _, ret := range core.Returns(fn) {
+		v := core.Strip(core.RetVals(ret)[0])
+		if f, _ := core.FieldLoad(v); f != fSpec {
+			why = "VersionString returns " + core.Expr(v) + ", not the specification itself: the comparer is asked about a different string than the one the version was created with, so a specification it cannot parse (leading/trailing blanks, a newline) gets a silent answer"
+		}
+	}
+	r.Check(why == "", "R19.8", "DefaultVersion.VersionString returns the specification unchanged", fn.Pos(), "return v.spec", why)
+}
+
+// c12NumberWithWrite: R12.16. A packet number is used up when its packet is written: the increment of
+// Channel.curPacketNr and the Packet.WriteTo it belongs to are in the same loop iteration (same innermost loop, the
+// increment first). Numbering all due packets ahead of the send loop burns the numbers of the packets a cancelled
+// context leaves unsent, and the next message on the channel continues with a gap.
+func c12NumberWithWrite(r *core.Run) {
+	p := r.Prog
+	fCur := p.Field("tds", "Channel", "curPacketNr")
+	pw := p.Func("tds", "Packet", "WriteTo")
+	n := 0
+	for _, fn := range p.ModuleFuncs() {
+		if fn.Blocks == nil || p.FuncInOverlay(fn) {
+			continue
+		}
+		for _, b := range fn.Blocks {
+			for _, in := range b.Instrs {
+				st, ok := in.(*ssa.Store)
+				if !ok {
+					continue
+				}
+				fa, ok := st.Addr.(*ssa.FieldAddr)
+				if !ok || core.FieldOfAddr(fa) != fCur {
+					continue
+				}
+				if c, isC := st.Val.(*ssa.Const); isC && c.Value != nil {
+					continue // initialisation / reset to a constant
+				}
+				n++
+				hs, _ := core.InnermostLoop(b)
+				good := false
+				for _, w := range callsTo(fn, pw) {
+					hw, _ := core.InnermostLoop(w.Block())
+					if hw != hs {
+						continue
+					}
+					// the write is reached from the increment without going round the loop
+					seen := map[*ssa.BasicBlock]bool{}
+					stack := []*ssa.BasicBlock{b}
+					for len(stack) > 0 {
+						x := stack[len(stack)-1]
+						stack = stack[:len(stack)-1]
+						if x == w.Block() {
+							good = true
+							break
+						}
+						if seen[x] {
+							continue
+						}
+						seen[x] = true
+						for _, s := range x.Succs {
+							if s != hs {
+								stack = append(stack, s)
+							}
+						}
+					}
+				}
+				r.Check(good, "R12.16", core.FuncName(fn)+": packet number taken in the iteration that writes the packet", st.Pos(), "increment and Packet.WriteTo in the same loop iteration", core.FuncName(fn)+" advances curPacketNr in a loop (or function) of its own, not in the iteration that writes the packet: when the send loop stops early (cancelled context, write error) the numbers of the unsent packets are used up and the channel's next packet does not carry the consecutive number")
+			}
+		}
+	}
+	if n == 0 {
+		r.Bad("R12.16", "packet number taken in the iteration that writes the packet", token.NoPos, "no increment of Channel.curPacketNr found")
+	}
+}
+
+// c06MaskFromWire: R06.17. The value mask of a capability type is as long as the server sent it: in
+// CapabilityPackage.ReadFrom the mask stored under the type is built from the bytes just read (a call that takes the
+// result of ch.Bytes(capLength)), not decoded into the mask the constructor pre-sized for the capabilities this
+// library knows — bits beyond the local maximum and the whole security mask would be dropped, and the package written
+// again differs from the one read.
+func c06MaskFromWire(r *core.Run) {
+	p := r.Prog
+	fn := p.Func("tds", "CapabilityPackage", "ReadFrom")
+	fCaps := p.Field("tds", "CapabilityPackage", "Capabilities")
+	n := 0
+	why := ""
+	for _, b := range fn.Blocks {
+		for _, in := range b.Instrs {
+			mu, ok := in.(*ssa.MapUpdate)
+			if !ok {
+				continue
+			}
+			if f, _ := core.FieldLoad(mu.Map); f != fCaps {
+				continue
+			}
+			n++
+			fromWire := false
+			if c, isC := core.Strip(mu.Value).(*ssa.Call); isC {
+				for _, a := range c.Call.Args {
+					if ex, isEx := core.Strip(a).(*ssa.Extract); isEx && ex.Index == 0 {
+						if rc, isRC := ex.Tuple.(*ssa.Call); isRC && rc.Call.IsInvoke() && rc.Call.Method.Name() == "Bytes" {
+							fromWire = true
+						}
+					}
+				}
+			}
+			if !fromWire {
+				why = "the mask stored for a capability type is " + core.Expr(mu.Value) + ", not one built from the bytes read"
+			} else if h, loop := core.InnermostLoop(b); h != nil {
+				// ... for every capability type of the package: no way round the loop misses the update once the
+				// bytes have been read (the update is not reserved for types the package does not hold yet)
+				var rd *ssa.BasicBlock
+				for bb := range loop {
+					for _, in2 := range bb.Instrs {
+						if c2, isC2 := in2.(*ssa.Call); isC2 && c2.Call.IsInvoke() && c2.Call.Method.Name() == "Bytes" {
+							rd = bb
+						}
+					}
+				}
+				if rd != nil {
+					core.EnumPaths(rd, func(x *ssa.BasicBlock) bool { return x == h }, loop, 4000, func(pa core.Path, ended bool) {
+						if !ended {
+							return
+						}
+						through := false
+						for _, x := range pa.Blocks {
+							if x == b {
+								through = true
+							}
+						}
+						if !through {
+							why = "a capability type can be read without its mask being rebuilt from the bytes (the update is conditional, e.g. only for types the package does not hold yet): for the pre-sized types bits above the highest capability this library knows, and every security capability, are dropped"
+						}
+					})
+				}
+			}
+		}
+	}
+	if n == 0 {
+		why = "CapabilityPackage.ReadFrom stores no mask built from the bytes it read (it decodes into the pre-sized masks): bits above the highest capability this library knows, and every security capability, are dropped"
+	}
+	r.Check(why == "", "R06.17", "CapabilityPackage.ReadFrom: each mask is built from the bytes read", fn.Pos(), "Capabilities[type] = parseValueMask(ch.Bytes(length))", why)
 }
